@@ -54,7 +54,8 @@ class LexicalDistance:
     def __init__(self, input_: str) -> None:
         self._input = input_
         self._input_lower_case = input_.lower()
-        row_size = len(input_) + 1
+        # the rows are filled from the lower-cased input, which can be longer
+        row_size = len(self._input_lower_case) + 1
         self._input_list = list(map(ord, self._input_lower_case))
 
         self._rows = [[0] * row_size, [0] * row_size, [0] * row_size]
